@@ -96,7 +96,7 @@ fn judge_program(r: &mut Rng) -> Vec<Op> {
             }
         }
         // CPython cannot be given an empty password (b"" means "no password")
-        if let Op::StartFile { o, .. } = op {
+        if let Op::StartFile { o, .. } | Op::StartAligned { o, .. } | Op::StartExtra { o, .. } | Op::AddDir { o, .. } | Op::AddSymlink { o, .. } = op {
             if o.password.as_ref().map(|p| p.0.is_empty()).unwrap_or(false) {
                 o.password = Some(Hex(b"nonempty".to_vec()));
             }
